@@ -336,7 +336,11 @@ class ProgGen:
                     name = self.fresh()
                     if r.random() < p.get("shadow_out", 0.0) and self.readable:
                         name = r.choice(self.readable)
-                out.append(("let", name, self.egen(scope)))
+                e = self.egen(scope)
+                if name in self.readable and r.random() < p.get("self_ref", 0.35):
+                    # let Q = Q + e: when Q is not a variable yet, the right-hand side reads the OUTPUT Q
+                    e = ("bin", r.choice(["+", "-", "^"]), ("var", name), e)
+                out.append(("let", name, e))
                 if name not in scope:
                     scope.append(name)
             elif x < 0.8 and depth < p.get("maxdepth", 3):
